@@ -215,6 +215,7 @@ func collect() {
 		}
 	}
 	trackBools()
+	deriveSlots()
 	sort.Strings(ownerOrder)
 	for _, o := range ownerOrder {
 		st := owners[o]
@@ -223,6 +224,121 @@ func collect() {
 				cacheFields = append(cacheFields, o+"."+st.Field(i).Name())
 			}
 		}
+	}
+}
+
+var slotProblems []string
+
+// deriveSlots fills slotTable from every call of cache.New: the Opts literal (given directly or through a local variable
+// assigned once from a literal, with later `v.Key = value` assignments) names the callbacks, the assignment target names the class
+func deriveSlots() {
+	isNew := func(e ast.Expr) *ast.CallExpr {
+		ce, ok := e.(*ast.CallExpr)
+		if !ok {
+			return nil
+		}
+		if sel, ok := unwrapFun(ce.Fun).(*ast.SelectorExpr); ok && sel.Sel.Name == "New" {
+			if o, ok := info.Uses[sel.Sel].(*types.Func); ok && o.Pkg() != nil && o.Pkg().Name() == "cache" && analysed(o.Pkg()) {
+				return ce
+			}
+		}
+		return nil
+	}
+	names := []string{}
+	for n := range decls {
+		names = append(names, n)
+	}
+	sort.Strings(names)
+	for _, n := range names {
+		f := decls[n]
+		optsOf := map[types.Object]map[string]string{} // local Opts variable -> key -> closure name / "?"
+		keysOf := func(cl *ast.CompositeLit) map[string]string {
+			m := map[string]string{}
+			for _, el := range cl.Elts {
+				kv, ok := el.(*ast.KeyValueExpr)
+				if !ok {
+					continue
+				}
+				k, _ := kv.Key.(*ast.Ident)
+				if k == nil || slotOfKey[k.Name] == "" {
+					continue
+				}
+				if fl, ok := kv.Value.(*ast.FuncLit); ok {
+					m[slotOfKey[k.Name]] = fnOf[fl].name
+				} else if !isNilIdent(kv.Value) {
+					m[slotOfKey[k.Name]] = "?"
+				}
+			}
+			return m
+		}
+		bindNew := func(target string, ce *ast.CallExpr, p token.Pos) {
+			m := map[string]string{"pruneFn": "", "prunePreFn": "", "prunePostFn": ""}
+			var src map[string]string
+			if len(ce.Args) == 1 {
+				switch a := ce.Args[0].(type) {
+				case *ast.CompositeLit:
+					src = keysOf(a)
+				case *ast.Ident:
+					src = optsOf[objOf(a)]
+				}
+			}
+			if src == nil {
+				slotProblems = append(slotProblems, pos(p)+": cache.New with options that are not a literal")
+				src = map[string]string{"pruneFn": "?", "prunePreFn": "?", "prunePostFn": "?"}
+			}
+			for k, v := range src {
+				m[k] = v
+			}
+			if _, dup := slotTable[target]; dup {
+				slotProblems = append(slotProblems, pos(p)+": second cache.New for "+target)
+			}
+			slotTable[target] = m
+		}
+		ast.Inspect(f.body, func(nd ast.Node) bool {
+			switch x := nd.(type) {
+			case *ast.FuncLit:
+				return false
+			case *ast.AssignStmt:
+				for i, r := range x.Rhs {
+					if i >= len(x.Lhs) {
+						break
+					}
+					if cl, ok := r.(*ast.CompositeLit); ok && typeName(info.TypeOf(cl)) == "Opts" {
+						if o := objOf(x.Lhs[i]); o != nil {
+							optsOf[o] = keysOf(cl)
+						}
+					}
+					// v.PruneFn = func ...
+					if sel, ok := x.Lhs[i].(*ast.SelectorExpr); ok && slotOfKey[sel.Sel.Name] != "" {
+						if m := optsOf[objOf(sel.X)]; m != nil {
+							if fl, ok := r.(*ast.FuncLit); ok {
+								m[slotOfKey[sel.Sel.Name]] = fnOf[fl].name
+							} else {
+								m[slotOfKey[sel.Sel.Name]] = "?"
+							}
+						}
+					}
+					if ce := isNew(r); ce != nil {
+						if sel, ok := x.Lhs[i].(*ast.SelectorExpr); ok && owners[typeName(info.TypeOf(sel.X))] != nil {
+							bindNew(typeName(info.TypeOf(sel.X))+"."+sel.Sel.Name, ce, ce.Pos())
+						} else {
+							slotProblems = append(slotProblems, pos(ce.Pos())+": cache.New assigned to something that is not a field of a mutex-owning struct")
+						}
+					}
+				}
+			case *ast.CompositeLit:
+				if owner := typeName(info.TypeOf(x)); owners[owner] != nil {
+					for _, el := range x.Elts {
+						if kv, ok := el.(*ast.KeyValueExpr); ok {
+							if ce := isNew(kv.Value); ce != nil {
+								bindNew(owner+"."+kv.Key.(*ast.Ident).Name, ce, ce.Pos())
+							}
+						}
+					}
+				}
+			}
+			return true
+		})
 	}
 }
 
@@ -348,6 +464,12 @@ func main() {
 	verbose := flag.Bool("v", false, "print edges and unrecognised entries")
 	flag.Parse()
 	repo, _ = filepath.Abs(repo)
+	if *outDir != "" {
+		*outDir, _ = filepath.Abs(*outDir)
+	}
+	if *sites != "" {
+		*sites, _ = filepath.Abs(*sites)
+	}
 	if err := os.Chdir(repo); err != nil { // the source importer resolves module imports relative to the working directory
 		fatal("%v", err)
 	}
